@@ -15,14 +15,11 @@
    the history stops with MemOverflow there).
    [= Ret ...] includes: no debug assertion of eq / cmp / hash fires, no internal panic.
 
-   `_partial`: [op_ok o] := [op_wf o] and, ONLY IF o multiplies ([uses_mul]: *=, pow, cbrt,
-   nth_root, lcm), [mul_statements] = the two statements of property C02 about the kernels
-   `scalar_mul` and `mul3` (exact product, canonical), which area `mul` has not proved yet.
-   Likewise [text_ok s] := fewer than 64 digits, or [mul_statements] (to_str_radix of longer
-   values multiplies).  The FULL statements are the same with [op_ok] replaced by [op_wf] and
-   [text_ok] dropped; they follow by [ops_ok_mul] once C02 provides [mul_statements].
-   The `_nomul` theorems are the full statements for histories without multiplying operations:
-   they assume nothing. *)
+   Operations that multiply (`*=`, pow, cbrt, nth_root, lcm) and the text of values of 64 digits
+   and more go through the kernels `scalar_mul` and `mul3`; their exactness is property C02
+   (MulProofs3.scalar_mul_spec, MulProofs5.mul3_spec), applied in inst/InstHist.v
+   ([mul_statements_hold], [ops_ok_of_wf], [text_ok_holds]).  No theorem below is relative to
+   anything but [ctor_wf] / [op_wf] / canonicity. *)
 From BigNum Require Import Base BaseLemmas AddSub Div Bits Sign Mul SpecBits SpecBytes Hist SpecHist HistProofs
   Extracted InstHist.
 From Coq Require Import Sorting.Permutation Sorting.Sorted.
@@ -32,28 +29,16 @@ Local Notation P := hist_extracted.
 Local Notation ok := hist_params_ok.
 
 (** ** one operation: the result is the canonical object of the Z-level result (panics agree) *)
-(* full statement: forall s o, ocanon s -> fits s = true -> op_wf o ->
-     step P s o = omap (oenc (okind s)) (sstep (okind s) (oval s) o) *)
-Theorem C04_step_spec_partial : forall s o, ocanon s -> fits s = true -> op_ok o ->
+Theorem C04_step_spec : forall s o, ocanon s -> fits s = true -> op_wf o ->
   step P s o = omap (oenc (okind s)) (sstep (okind s) (oval s) o).
-Proof. intros; apply step_spec; auto using ok. Qed.
-Print Assumptions C04_step_spec_partial.
-
-Theorem C04_step_spec_nomul : forall s o, ocanon s -> fits s = true -> op_wf o -> uses_mul o = false ->
-  step P s o = omap (oenc (okind s)) (sstep (okind s) (oval s) o).
-Proof. intros; apply step_spec; auto using ok, op_ok_nomul. Qed.
-Print Assumptions C04_step_spec_nomul.
+Proof. intros; apply step_spec; auto using ok, op_ok_of_wf. Qed.
+Print Assumptions C04_step_spec.
 
 (** the invariant "no high zero digit, NoSign iff zero" survives every operation *)
-Theorem C04_step_canon_partial : forall s o s', ocanon s -> fits s = true -> op_ok o ->
+Theorem C04_step_canon : forall s o s', ocanon s -> fits s = true -> op_wf o ->
   step P s o = Ret s' -> ocanon s' /\ okind s' = okind s.
-Proof. intros; eapply step_canon; eauto using ok. Qed.
-Print Assumptions C04_step_canon_partial.
-
-Theorem C04_step_canon_nomul : forall s o s', ocanon s -> fits s = true -> op_wf o -> uses_mul o = false ->
-  step P s o = Ret s' -> ocanon s' /\ okind s' = okind s.
-Proof. intros; eapply step_canon; eauto using ok, op_ok_nomul. Qed.
-Print Assumptions C04_step_canon_nomul.
+Proof. intros; eapply step_canon; eauto using ok, op_ok_of_wf. Qed.
+Print Assumptions C04_step_canon.
 
 (** ** every constructor yields the canonical object of the value its input denotes *)
 Theorem C04_construct_spec : forall c, ctor_wf c ->
@@ -62,32 +47,26 @@ Proof. exact (construct_spec P ok). Qed.
 Print Assumptions C04_construct_spec.
 
 (** ** reachability: by induction over the history *)
-Theorem C04_reachable_canon_partial : forall c ops s0 s, ctor_wf c -> Forall op_ok ops ->
-  start P c = Ret s0 -> run P s0 ops = Ret s -> ocanon s.
-Proof. intros; eapply reachable_canon; eauto using ok. Qed.
-Print Assumptions C04_reachable_canon_partial.
-
-Theorem C04_reachable_canon_nomul : forall c ops s0 s, ctor_wf c -> Forall op_wf ops ->
-  forallb (fun o => negb (uses_mul o)) ops = true ->
+Theorem C04_reachable_canon : forall c ops s0 s, ctor_wf c -> Forall op_wf ops ->
   start P c = Ret s0 -> run P s0 ops = Ret s -> ocanon s.
 Proof.
-  intros c ops s0 s Hc Hw Hn E0 E.
-  exact (reachable_canon P ok c ops s0 s Hc (ops_ok_nomul _ Hw Hn) E0 E).
+  intros c ops s0 s Hc Hw E0 E.
+  exact (reachable_canon P ok c ops s0 s Hc (ops_ok_of_wf _ Hw) E0 E).
 Qed.
-Print Assumptions C04_reachable_canon_nomul.
+Print Assumptions C04_reachable_canon.
 
 (** a whole history computes the canonical object of what the same history computes on
     integers, and stops (panics) exactly where that one does; the same for every intermediate
     object (what the correspondence run prints) *)
-Theorem C04_history_spec_partial : forall c ops, ctor_wf c -> Forall op_ok ops ->
+Theorem C04_history_spec : forall c ops, ctor_wf c -> Forall op_wf ops ->
   history P c ops = omap (oenc (fst (shistory c ops))) (snd (shistory c ops)).
-Proof. intros; apply history_spec; auto using ok. Qed.
-Print Assumptions C04_history_spec_partial.
+Proof. intros; apply history_spec; auto using ok, ops_ok_of_wf. Qed.
+Print Assumptions C04_history_spec.
 
-Theorem C04_history_trace_spec_partial : forall c ops, ctor_wf c -> Forall op_ok ops ->
+Theorem C04_history_trace_spec : forall c ops, ctor_wf c -> Forall op_wf ops ->
   history_trace P c ops = map (omap (oenc (fst (shistory_trace c ops)))) (snd (shistory_trace c ops)).
-Proof. intros; apply history_trace_spec; auto using ok. Qed.
-Print Assumptions C04_history_trace_spec_partial.
+Proof. intros; apply history_trace_spec; auto using ok, ops_ok_of_wf. Qed.
+Print Assumptions C04_history_trace_spec.
 
 (** ** Eq is numeric equality, Ord is numeric order (canonical operands of any length) *)
 Theorem C04_ueq_iff : forall a b, canon a -> canon b ->
@@ -135,12 +114,10 @@ Print Assumptions C04_nosign_iff_zero.
 
 (** ** every export (u32/u64 digits, bytes, signed bytes, bits, count_ones, trailing_zeros,
        decimal and hex text) is a function of the integer alone *)
-(* full statement: without the [text_ok] premise *)
-Theorem C04_export_spec_partial : forall e s, ocanon s -> In e (exports_for s) ->
-  (is_text e = true -> text_ok s) ->
+Theorem C04_export_spec : forall e s, ocanon s -> In e (exports_for s) ->
   export_of P e s = sexport (okind s) e (oval s).
-Proof. intros; apply export_spec; auto using ok. Qed.
-Print Assumptions C04_export_spec_partial.
+Proof. intros; apply export_spec; auto using ok, text_ok_holds. Qed.
+Print Assumptions C04_export_spec.
 
 Theorem C04_export_fun : forall e a b, ocanon a -> ocanon b -> okind a = okind b -> oval a = oval b ->
   export_of P e a = export_of P e b.
@@ -151,46 +128,30 @@ Print Assumptions C04_export_fun.
        the same integer yield the SAME object — hence `==`, `cmp = Equal`, the same hash stream,
        the same exports — and on any two reachable objects of one type `==`, `cmp`, `max`, `min`
        are what the integers dictate; NoSign (an empty BigUint) exactly for zero. *)
-(* full statement: the same with [Forall op_wf] for [Forall op_ok] and without [text_ok] *)
-Theorem C04_indistinguishable_partial : forall ca opsa cb opsb a b,
-  ctor_wf ca -> Forall op_ok opsa -> ctor_wf cb -> Forall op_ok opsb ->
+Theorem C04_indistinguishable : forall ca opsa cb opsb a b,
+  ctor_wf ca -> Forall op_wf opsa -> ctor_wf cb -> Forall op_wf opsb ->
   history P ca opsa = Ret a -> history P cb opsb = Ret b -> okind a = okind b ->
   (oval a = oval b -> a = b) /\
   oeq a b = Ret (oval a =? oval b) /\
   ocmp a b = Ret (oval a ?= oval b) /\
   (oval a = oval b -> hash_stream a = hash_stream b) /\
   (hash_stream a = hash_stream b -> oval a = oval b) /\
-  (forall e, In e (exports_for a) -> (is_text e = true -> text_ok a) ->
-             export_of P e a = sexport (okind a) e (oval a)) /\
+  (forall e, In e (exports_for a) -> export_of P e a = sexport (okind a) e (oval a)) /\
   (forall e, oval a = oval b -> export_of P e a = export_of P e b) /\
   (exists m, omax a b = Ret m /\ (m = a \/ m = b) /\ oval m = Z.max (oval a) (oval b)) /\
   (exists m, omin a b = Ret m /\ (m = a \/ m = b) /\ oval m = Z.min (oval a) (oval b)) /\
   (osign a = NoSign <-> oval a = 0).
-Proof. intros ca opsa cb opsb a b; apply indistinguishable, ok. Qed.
-Print Assumptions C04_indistinguishable_partial.
-
-(** histories without multiplying operations: nothing is assumed *)
-Theorem C04_indistinguishable_nomul : forall ca opsa cb opsb a b,
-  ctor_wf ca -> Forall op_wf opsa -> forallb (fun o => negb (uses_mul o)) opsa = true ->
-  ctor_wf cb -> Forall op_wf opsb -> forallb (fun o => negb (uses_mul o)) opsb = true ->
-  history P ca opsa = Ret a -> history P cb opsb = Ret b -> okind a = okind b ->
-  (oval a = oval b -> a = b) /\
-  oeq a b = Ret (oval a =? oval b) /\
-  ocmp a b = Ret (oval a ?= oval b) /\
-  (oval a = oval b -> hash_stream a = hash_stream b) /\
-  (hash_stream a = hash_stream b -> oval a = oval b) /\
-  (forall e, oval a = oval b -> export_of P e a = export_of P e b) /\
-  (osign a = NoSign <-> oval a = 0).
 Proof.
-  intros ca opsa cb opsb a b Hca Hwa Hna Hcb Hwb Hnb Ea Eb K.
-  destruct (indistinguishable P ok ca opsa cb opsb a b Hca (ops_ok_nomul _ Hwa Hna) Hcb (ops_ok_nomul _ Hwb Hnb) Ea Eb K)
-    as (H1 & H2 & H3 & H4 & H5 & _ & H7 & _ & _ & H10).
-  repeat split; auto; apply H10.
+  intros ca opsa cb opsb a b Hca Hwa Hcb Hwb Ea Eb K.
+  destruct (indistinguishable P ok ca opsa cb opsb a b Hca (ops_ok_of_wf _ Hwa) Hcb (ops_ok_of_wf _ Hwb) Ea Eb K)
+    as (H1 & H2 & H3 & H4 & H5 & H6 & H7 & H8 & H9 & H10).
+  split; [exact H1|]. split; [exact H2|]. split; [exact H3|]. split; [exact H4|]. split; [exact H5|].
+  split; [intros e He; apply H6; [exact He|intros _; apply text_ok_holds]|].
+  split; [exact H7|]. split; [exact H8|]. split; [exact H9|exact H10].
 Qed.
-Print Assumptions C04_indistinguishable_nomul.
+Print Assumptions C04_indistinguishable.
 
-(** the multiplication statements are satisfiable as far as the model runs (non-vacuity of the
-    premise is the business of C02); here: the machine on concrete histories.
+(** Non-vacuity: the machine on concrete histories.
    A BigInt built from an inconsistent request (Minus, magnitude with two redundant zero
    digits), grown by <<= 200, then reduced to zero by `-=` has NoSign and no digits; a BigUint
    reached through ((x << 70) + y) >> 70, and one reached through x * y / y, are the object
